@@ -583,6 +583,12 @@ def _main(tier_, master, cfg, docs, A, cwd, t0):
         for c in calls:
             if c not in table:
                 need.add(c)
+    for i in range(cfg['faultruns']):
+        # the diagnostic I/O-fault runs (thorough tier) draw their own histories: they need fresh outcomes too
+        kind, calls = gen_history(common.rng_for(PROP, master, 'fault', i), docs, table)
+        for c in calls[:12]:
+            if c not in table:
+                need.add(c)
     if need:
         t2, f2, s2 = fresh_table(need, cwd)
         table.update(t2); files |= f2; socks += s2
